@@ -137,6 +137,13 @@ inductive Err where
   | fuel
 deriving DecidableEq, Repr
 
+instance : DecidableEq (Except Err (List Tok)) := fun a b =>
+  match a, b with
+  | .ok x, .ok y => if h : x = y then isTrue (by rw [h]) else isFalse (by intro e; cases e; exact h rfl)
+  | .error x, .error y => if h : x = y then isTrue (by rw [h]) else isFalse (by intro e; cases e; exact h rfl)
+  | .ok _, .error _ => isFalse (by intro e; cases e)
+  | .error _, .ok _ => isFalse (by intro e; cases e)
+
 def mapOk (f : List Tok → List Tok) : Except Err (List Tok) → Except Err (List Tok)
   | .ok l => .ok (f l)
   | .error e => .error e
@@ -267,14 +274,18 @@ def succs (ts : List Task) (n : Tok) : List Tok :=
   | none => []
   | some t => t.taskDep ++ t.calcDep ++ (if t.utd then [] else t.setup)
 
-def expand (ts : List Task) (S : List Tok) : List Tok :=
-  S ++ ((S.flatMap (succs ts)).filter (fun m => !S.contains m)).eraseDups
+/-- append the elements of the second list that are not there yet -/
+def addNew (S : List Tok) : List Tok → List Tok
+  | [] => S
+  | m :: ms => if S.contains m then addNew S ms else addNew (S ++ [m]) ms
+
+def expand (ts : List Task) (S : List Tok) : List Tok := addNew S (S.flatMap (succs ts))
 
 def reachIter (ts : List Task) : Nat → List Tok → List Tok
   | 0, S => S
   | n + 1, S => reachIter ts n (expand ts S)
 
-def closureOf (ts : List Task) (sel : List Tok) : List Tok := reachIter ts ts.length sel.eraseDups
+def closureOf (ts : List Task) (sel : List Tok) : List Tok := reachIter ts ts.length (addNew [] sel)
 
 def closedB (ts : List Task) (S : List Tok) : Bool := S.all (fun n => (succs ts n).all (fun m => S.contains m))
 
@@ -299,7 +310,7 @@ def idxOf (l : List Tok) (a : Tok) : Nat := l.findIdx (· == a)
 /-- order clause: a selected task `b` given after `a` may start before `a` only if it is in the closure of `a`
     or of a task selected before `a` -/
 def orderPairsBad (ts : List Task) (sel started : List Tok) : List (Tok × Tok) :=
-  let s := sel.eraseDups
+  let s := addNew [] sel
   (List.range s.length).flatMap fun i =>
     (List.range s.length).filterMap fun j =>
       let a := s.getD i []
